@@ -10,7 +10,7 @@ use crate::probe::{Decision, Probe};
 use crate::statejson::{self, ShapeSpec};
 
 pub const TITLE: &str = "A rejected move leaves no trace; the result is the last accepted state";
-pub const RULE: &str = "part scripted: synthetic states with 2..8 parameters, bounds either so narrow that clamping is frequent (range 1, moves up to +-range/2) or wide (never clamped), optionally one parameter starting outside its bounds or one parameter with no room to move (min = max), 1..20 inner loops, any kT, with and without a convergence threshold, and a cyclic adversarial script of forced outcomes (accept by 'better'/'equal', reject by 'undefined', 'worse' = reject at kT=0 and either at kT>0). History invariants: (1) every proposal differs in at most one coordinate, all others bit-identical, from some state the optimiser can be in, where after each step that state is either exactly the proposal or exactly the previous state whatever the decision was (a proposal without a score can only be followed by the previous state); (2) the parameters of the returned state are one of the states the history allows, and when every interior forced decision was honoured they are bit-for-bit the last accepted proposal (or the input if none); (3) the final validity evaluation sees the returned parameters. part real: the same decision-agnostic invariants on real hard and Lennard-Jones states at kT=0 and kT>0. Non-trivial = the history contains accept, reject, reject on one coordinate (the stale-backup pattern) or a clamped proposal that is rejected; distinct by hash of the case.";
+pub const RULE: &str = "part scripted: synthetic states with 2..8 parameters, bounds either so narrow that clamping is frequent (range 1, moves up to +-range/2) or wide (never clamped), optionally one parameter starting outside its bounds or one parameter with no room to move (min = max), 1..20 inner loops, any kT, step sizes from a few units in the last place (1e-17..1e-13 of the range) to 2.5 ranges, with and without a convergence threshold, and a cyclic adversarial script of forced outcomes (accept by 'better'/'equal', reject by 'undefined', 'worse' = reject at kT=0 and either at kT>0). History invariants: (1) every proposal differs in at most one coordinate, all others bit-identical, from some state the optimiser can be in, where after each step that state is either exactly the proposal or exactly the previous state whatever the decision was (a proposal without a score can only be followed by the previous state); (2) the parameters of the returned state are one of the states the history allows, and when every interior forced decision was honoured they are bit-for-bit the last accepted proposal (or the input if none); (3) the final validity evaluation sees the returned parameters. part real: the same decision-agnostic invariants on real hard and Lennard-Jones states at kT=0 and kT>0. Non-trivial = the history contains accept, reject, reject on one coordinate (the stale-backup pattern) or a clamped proposal that is rejected; distinct by hash of the case.";
 
 pub fn assumptions() -> Vec<&'static str> {
     vec![
